@@ -813,6 +813,11 @@ func (g *G) genGEP(c *cur) {
 			f := g.intn("field", nfields)
 			g.feat("gep/struct-step")
 			cst := &am.Const{K: am.CInt, T: am.I32, Int: big.NewInt(int64(f))}
+			if g.chance("overwideidx", 1, 12) && !g.off("gep-overwide-struct-index") {
+				// a literal too wide for i32: LLVM reads it modulo 2^32
+				cst.Int = new(big.Int).Add(cst.Int, new(big.Int).Lsh(big.NewInt(1), 32))
+				g.feat("gep/struct-index-wider-than-i32")
+			}
 			gi.HasVal, gi.Val = true, int64(f)
 			forceSplat := false
 			if vlen == 0 && g.chance("structvecidx", 1, 12) && !g.off("gep-vector-index") {
